@@ -2,7 +2,8 @@
     on the entry.  Only statements here; proofs live in Proofs/QLogFile.v. *)
 From Coq Require Import ZArith List String.
 From AGH Require Import Base.Run Model.QLogFile Model.QLogCodec Model.QLogBytes
-  Proofs.QLogFile Proofs.QLogFileAbsent Proofs.QLogHistory Proofs.QLogCodec Proofs.QLogCodecLoc Proofs.QLogBytes Proofs.QLogStamp.
+  Proofs.QLogFile Proofs.QLogFileAbsent Proofs.QLogHistory Proofs.QLogCodec Proofs.QLogCodecLoc Proofs.QLogBytes Proofs.QLogStamp
+  Model.QLogDisk Proofs.QLogDisk.
 Import ListNotations.
 Local Open Scope Z_scope.
 
@@ -379,3 +380,90 @@ Example C20_reader_history_example :
      OSeek RFellBack; ORead (Some (1, 14, 3)); OSeek RFound; ORead (Some (0, 6, 4)); ORead (Some (0, 0, 5)); ORead None].
 Proof. exact history_example. Qed.
 Print Assumptions C20_reader_history_example.
+
+(** * Round 6: the file on disk (content and metadata); alignment
+
+    Model/QLogDisk.v: a file on disk is its content and its metadata
+    (modification time, access time, permission bits).  The reader of the code
+    uses Stat only for the size; its model on a disk file is the byte-level
+    reader applied to the content.  So the reader's behaviour is a function of
+    the bytes only.  This is true by construction of the model; that the CODE
+    agrees is what the correspondence under varied metadata checks
+    (C20.CMeta cases: modification time at the epoch, before / inside / just
+    before the end of / after the stored stamps, access time, read-only files,
+    files growing through a second handle). *)
+Theorem C20_seek_depends_on_bytes_only : forall o me buf (d1 d2 : disk_file) ts (s : rstate),
+  d_content d1 = d_content d2 ->
+  d_seek_ts o me d1 ts s = d_seek_ts o me d2 ts s /\
+  d_seek_start d1 s = d_seek_start d2 s /\
+  d_read_next me buf d1 s = d_read_next me buf d2 s.
+Proof. exact seek_depends_on_bytes_only. Qed.
+Print Assumptions C20_seek_depends_on_bytes_only.
+
+(** The seek clause on a file on disk: whatever the metadata [m], seeking the
+    stamp of a stored line finds it and the next ReadNext returns its bytes;
+    an absent stamp is classified by its rank and moves nothing. *)
+Theorem C20_seek_present_whatever_metadata : forall o me buf (ls : list bytes) (m : fmeta) k ln (s : rstate),
+  0 < me <= buf -> blines_ok me ls ->
+  stamps_nonzero (absf o ls) -> sorted_ts (absf o ls) -> size_ok (absf o ls) ->
+  nth_error ls k = Some ln -> 0 <= buf_start s ->
+  let d := {| d_content := flat ls; d_meta := m |} in
+  exists dep s',
+    d_seek_ts o me d (read_qlog_ts o ln) s = (Found (St (absf o ls) k + blen ln) dep, s') /\
+    fst (d_read_next me buf d s') = Some (ln, St (absf o ls) k).
+Proof. exact seek_present_whatever_metadata. Qed.
+Print Assumptions C20_seek_present_whatever_metadata.
+
+Theorem C20_seek_absent_whatever_metadata : forall o me (ls : list bytes) (m : fmeta) ts r (s : rstate),
+  0 < me -> blines_ok me ls ->
+  stamps_nonzero (absf o ls) -> sorted_ts (absf o ls) -> size_ok (absf o ls) -> ls <> [] ->
+  (r <= length ls)%nat ->
+  (forall k ln, nth_error ls k = Some ln -> (k < r)%nat -> read_qlog_ts o ln < ts) ->
+  (forall k ln, nth_error ls k = Some ln -> (r <= k)%nat -> ts < read_qlog_ts o ln) ->
+  let d := {| d_content := flat ls; d_meta := m |} in
+  fst (d_seek_ts o me d ts s) =
+    (if Nat.eqb r 0 then TooEarly else if Nat.eqb r (length ls) then TooLate else NotFound) /\
+  pos (snd (d_seek_ts o me d ts s)) = pos s.
+Proof. exact seek_absent_whatever_metadata. Qed.
+Print Assumptions C20_seek_absent_whatever_metadata.
+
+(** A seekTS that answers too-late from the modification time (wave-6 change
+    L) is not a function of the bytes and breaks the seek clause. *)
+Theorem C20_mtime_shortcut_refuted :
+  exists (d : disk_file) (ts : Z) p dep,
+    fst (d_seek_ts ex_oracle 64 d ts rstate0) = Found p dep /\
+    fst (d_seek_ts_mtime ex_oracle 64 d ts rstate0) = TooLate /\
+    fst (d_seek_ts_mtime ex_oracle 64 {| d_content := d_content d; d_meta := {| m_mtime := 9; m_atime := 9; m_mode := 420 |} |} ts rstate0)
+      = Found p dep.
+Proof. exact mtime_shortcut_refuted. Qed.
+Print Assumptions C20_mtime_shortcut_refuted.
+
+Example C20_disk_example :
+  d_content (ex_disk 2) = d_content (ex_disk 9) /\ ex_disk 2 <> ex_disk 9 /\
+  d_seek_ts ex_oracle 64 (ex_disk 2) 5 rstate0 = d_seek_ts ex_oracle 64 (ex_disk 9) 5 rstate0 /\
+  fst (d_seek_ts ex_oracle 64 (ex_disk 2) 5 rstate0) = Found 83 1.
+Proof. exact disk_example. Qed.
+Print Assumptions C20_disk_example.
+
+(** Alignment.  C20_bytes_read_next_refines and C20_bytes_reverse_complete
+    hold wherever the windows fall.  The placement wave-6 change K needs, as
+    an instance (entry limit 4, window 8, file ab, xyz, pqr, one per line):
+    the first byte of the first window is the line break in front of a record
+    of the greatest length that ends at the re-initialisation threshold.  A
+    backward scan that does not examine window byte 0 returns the same NUMBER
+    of strings but not the lines. *)
+Example C20_alignment_example :
+  blines_ok 4 al_ls /\ 8 < blen (flat al_ls) /\
+  buf_start (snd (b_read_next 4 8 (flat al_ls) (b_seek_start (flat al_ls) rstate0))) = 2 /\
+  nth 2 (flat al_ls) 0%N = nl /\
+  b_read_all 4 8 (flat al_ls) 4 (b_seek_start (flat al_ls) rstate0) = (rev al_ls, true).
+Proof. exact alignment_example. Qed.
+Print Assumptions C20_alignment_example.
+
+Theorem C20_scan_skipping_window_byte_0_refuted :
+  exists me buf ls, 0 < me <= buf /\ blines_ok me ls /\
+    b_read_all me buf (flat ls) (S (length ls)) (b_seek_start (flat ls) rstate0) = (rev ls, true) /\
+    exists got, b_read_all_from1 me buf (flat ls) (S (length ls)) (b_seek_start (flat ls) rstate0) = (got, true) /\
+      length got = length ls /\ got <> rev ls.
+Proof. exact scan_skipping_window_byte_0_refuted. Qed.
+Print Assumptions C20_scan_skipping_window_byte_0_refuted.
